@@ -46,7 +46,16 @@ def call_seg(rows, thr, mode, scale=1):
     names = ["f%d" % j for j in range(k)]
     for j, nm in enumerate(names):
         tr.createAnalyticalFeature(nm, [float("nan") if r[j] == NANV else r[j] / scale for r in rows])
-    e = {"ev": "seg", "rows": [list(r) for r in rows], "thr": list(thr), "mode": mode, "raised": False, "out": []}
+    e = {"ev": "seg", "rows": [list(r) for r in rows], "thr": list(thr), "mode": mode, "raised": False, "out": [], "pre": []}
+    # history variant: the marker feature already exists (an earlier segmentation into the same name, or a column the user
+    # created): the call must REPLACE its content - 1 exactly where the thresholds say so, 0 elsewhere
+    h = (sum(sum(v for v in r) for r in rows) + 3 * n + k + (0 if mode == "and" else 1)) % 4
+    if h == 1:
+        e["pre"] = [1] * n
+    elif h == 2:
+        e["pre"] = [(i + 1) % 2 for i in range(n)]
+    if e["pre"]:
+        tr.createAnalyticalFeature("out", list(e["pre"]))
     try:
         with core.quiet():
             if k == 1 and n % 2:
